@@ -304,8 +304,11 @@ func deliver(res *core.Result, tp *Tape, pname string, item int, d int, desc str
 	if used := a1 - a0; used > uint64(allocC*len(b)+allocK) {
 		dd.Alloc = used
 		engine.Violate(res, "allocation|"+pname, dd)
-	} else if r := int64(used) / int64(len(b)+1); r > res.Stats["max_alloc_bytes_per_input_byte"] {
-		res.Stats["max_alloc_bytes_per_input_byte"] = r
+	} else if r := int64(used) / int64(len(b)+1); r > res.Volatile["max_alloc_bytes_per_input_byte"] {
+		if res.Volatile == nil {
+			res.Volatile = map[string]int64{}
+		}
+		res.Volatile["max_alloc_bytes_per_input_byte"] = r
 	}
 	if dt := simrt.NowNs() - t0; dt > int64(10*time.Minute) {
 		engine.Violate(res, "simulated-time-overrun|"+pname, dd)
